@@ -4,6 +4,8 @@ import glob, json, os
 V = os.path.dirname(os.path.dirname(os.path.abspath(__file__)))
 rows = []
 for d in sorted(glob.glob(os.path.join(V, "seeded", "*"))):
+    if not os.path.exists(os.path.join(d, "meta.json")):
+        continue
     m = json.load(open(os.path.join(d, "meta.json")))
     name = os.path.basename(d)
     c = m.get("checks", {}).get(m["property"], {})
